@@ -1,8 +1,15 @@
 (* C06 -- executable glue for the correspondence harness (harness/props/c06.py). *)
-From Coq Require Import ZArith List Bool.
+From Coq Require Import ZArith List Bool String Ascii.
 Import ListNotations.
 Require Import EmbossV.Text.IntCodec EmbossV.Text.StructText.
 Open Scope Z_scope.
+
+(* character codes of a Coq string literal (the harness writes ASCII texts as literals) *)
+Fixpoint codes (s : string) : list Z :=
+  match s with
+  | EmptyString => []
+  | String a r => Z.of_N (N_of_ascii a) :: codes r
+  end.
 
 (* ---- (a) integer codec and tokenizer, directly ---- *)
 Inductive ccase :=
@@ -35,7 +42,7 @@ Definition run_codec (c : ccase) : cout :=
       match decode_int t text with
       | Ok z => OVal z | Reject => OReject | UB => OUB | OutOfFuel => OFuel
       end
-  | CTok text => let '(ok, l) := all_tokens (S (length text)) (st_of text) in OToks ok l
+  | CTok text => let '(ok, l) := all_tokens (S (List.length text)) (st_of text) in OToks ok l
   end.
 
 Fixpoint lists_eqb (a b : list (list Z)) : bool :=
@@ -87,7 +94,7 @@ Fixpoint events_eqb (a b : list event) : bool :=
 (* the store that records every TryToWrite (most recent first); every write succeeds *)
 Definition rec_write (p : list pelem) (x : wv) (w : list event) : option (list event) := Some ((p, x) :: w).
 
-Definition fuel_for (text : list Z) : nat := (4 * length text + 64)%nat.
+Definition fuel_for (text : list Z) : nat := (4 * List.length text + 64)%nat.
 
 (* WriteToString, and: does UpdateFromText of that text perform exactly the TryToWrite calls
    events_of predicts, consuming the whole text? *)
